@@ -92,7 +92,17 @@ HARNESSES = [
          must_have=["C13.bp.single_owner", "C13.bp.no_orphan", "C13.bp.destroy_safe"],
          # <= BP_BS + 1 bytes: at most 4 passes through append's loop
          unwindset=["sqfs_block_processor_append.0:5"], timeout=1800,
-         cases=_cases([(1, "append")], fixed=True)),
+         cases=[c for c in _cases([(1, "append")], fixed=True) if c["tier"] == "quick"]),
+    # the same harness on the start shapes WITH a current block (thorough tier,
+    # ~6 min each): their cover pass runs out of memory, so reachability of the
+    # cover points is established by the quick shapes of w17_own_app only
+    dict(_COMMON, native=False, cover=False, name="w17_own_app_cur",
+         defines={"BP_BS": 4, "INODE_AVAIL": 0, "OP": 1, "W17_DEQ_MOVES": 1},
+         pre_instrument_flags=["--replace-calls", "get_new_block:w17_gnb_contract",
+                               "--replace-calls", "enqueue_block:w17_enq_contract"],
+         must_have=["C13.bp.single_owner", "C13.bp.no_orphan", "C13.bp.destroy_safe"],
+         unwindset=["sqfs_block_processor_append.0:5"], timeout=1800,
+         cases=[c for c in _cases([(1, "append")], fixed=True) if c["tier"] != "quick"]),
     # dequeue_block itself: the real function, its two big callees replaced by
     # the contracts that cases pcb / pcf establish (all real together: no result
     # in 15 minutes)
